@@ -125,11 +125,9 @@ fn gen_operand_param_parse_methods(grammar: &[structs::OperandKind]) -> Vec<(&st
         !element.enumerants.is_empty()
     }).filter_map(|element| {
         // Get the symbol and all the parameters for each enumerant.
-        let pairs: Vec<(&str, Vec<&str>)> = element.enumerants.iter()
+        let pairs: Vec<(&str, Vec<&structs::Operand>)> = element.enumerants.iter()
             .filter_map(|e| {
-                let params: Vec<&str> = e.parameters.iter().map(
-                    |p| { p.kind.as_str() }
-                ).collect();
+                let params: Vec<&structs::Operand> = e.parameters.iter().collect();
                 if params.is_empty() {
                     // Filter out enumerants without further parameters.
                     None
@@ -161,8 +159,8 @@ fn gen_operand_param_parse_methods(grammar: &[structs::OperandKind]) -> Vec<(&st
             // associated parameters.
             let cases = pairs.into_iter().map(|(symbol, params)| {
                 let params = params.iter().map(|element| {
-                    let op_kind = get_dr_operand_kind(element);
-                    let decode = get_decode_method(element);
+                    let op_kind = get_dr_operand_kind(&element.kind);
+                    let decode = get_decode_method(&element.kind);
                     quote! { dr::Operand::#op_kind(self.decoder.#decode()?) }
                 });
                 let bit = as_ident(&symbol.to_shouty_snake_case());
@@ -181,14 +179,37 @@ fn gen_operand_param_parse_methods(grammar: &[structs::OperandKind]) -> Vec<(&st
             }
         } else {  // ValueEnum
             let cases = pairs.into_iter().map(|(symbol, params)| {
-                let params = params.iter().map(|element| {
-                    let op_kind = get_dr_operand_kind(element);
-                    let decode = get_decode_method(element);
+                // A variadic parameter (always the last one) takes every
+                // remaining word of the instruction.
+                let variadic = params
+                    .last()
+                    .filter(|p| p.quantifier == structs::Quantifier::ZeroOrMore)
+                    .map(|element| {
+                        let op_kind = get_dr_operand_kind(&element.kind);
+                        let decode = get_decode_method(&element.kind);
+                        quote! { dr::Operand::#op_kind(self.decoder.#decode()?) }
+                    });
+                let fixed = params.len() - variadic.iter().len();
+                let params = params.iter().take(fixed).map(|element| {
+                    let op_kind = get_dr_operand_kind(&element.kind);
+                    let decode = get_decode_method(&element.kind);
                     quote! { dr::Operand::#op_kind(self.decoder.#decode()?) }
                 });
                 let symbol = as_ident(symbol);
-                quote! {
-                    spirv::#kind::#symbol => vec![#(#params),*]
+                if let Some(variadic) = variadic {
+                    quote! {
+                        spirv::#kind::#symbol => {
+                            let mut params = vec![#(#params),*];
+                            while !self.decoder.limit_reached() {
+                                params.push(#variadic);
+                            }
+                            params
+                        }
+                    }
+                } else {
+                    quote! {
+                        spirv::#kind::#symbol => vec![#(#params),*]
+                    }
                 }
             });
             // TODO: filter duplicated symbols mapping to the same discriminator to avoid
